@@ -118,8 +118,9 @@ def lit(v):
     return ('lit', v)
 
 class Interp:
-    def __init__(self, facts, body, summaries=None, unroll=1, inline=None, field_hook=None, for_once=False, result_combinators=True, combinators=False):
+    def __init__(self, facts, body, summaries=None, unroll=1, inline=None, field_hook=None, for_once=False, result_combinators=True, combinators=False, generic_loops=False):
         self.field_hook = field_hook
+        self.generic_loops = generic_loops   # evaluate `loop`/`while` once from every state an earlier iteration can leave behind
         self.combinators = combinators    # model Option/Result::{unwrap_or*, ok_or*, map_or*} by cases
         self.result_combinators = result_combinators   # model Result::{map_err, ok, err} by cases instead of as opaque calls
         self.for_once = for_once      # `for` loops run exactly once over a generic element (shape extraction)
@@ -163,7 +164,7 @@ class Interp:
         if rec is None or getattr(self, '_depth', 0) > 6:
             return None
         B = hirq.Body(self.facts, rec)
-        sub = Interp(self.facts, B, self.summaries, self.unroll, self.inline, self.field_hook, self.for_once, self.result_combinators, self.combinators)
+        sub = Interp(self.facts, B, self.summaries, self.unroll, self.inline, self.field_hook, self.for_once, self.result_combinators, self.combinators, self.generic_loops)
         sub._depth = getattr(self, '_depth', 0) + 1
         env = {}
         states = [St(env, st.heap, st.ev, st.pc, st.ctr)]
@@ -641,7 +642,26 @@ class Interp:
             return [st]
         return product(True)
 
+    def generic_loop(self, e, st, one):
+        """One generic iteration: the loop body evaluated from each state the back edge can carry (see carried_states).  Exits
+        become values; a path that reaches the back edge ends as Out('loop') - the next iteration is the same generic one."""
+        lid = e.get('id')
+        def is_back(o):
+            return o.kind == 'val' or (o.kind == 'cont' and (o.target is None or o.target == lid))
+        outs = []
+        for s0 in self.carried_states(e, st, lambda s: [o.st for o in one(s) if is_back(o)]):
+            for o in one(s0):
+                if o.kind == 'brk' and (o.target is None or o.target == lid):
+                    outs.append(Out('val', o.val, o.st))
+                elif is_back(o):
+                    outs.append(Out('loop', UNIT, o.st, lid))
+                else:
+                    outs.append(o)
+        return outs
+
     def loop_common(self, e, st, one, always):
+        if self.generic_loops and e.get('k') in ('Loop', 'While'):
+            return self.generic_loop(e, st, one)
         lid = e.get('id')
         outs = []
         states = [st]
@@ -731,6 +751,14 @@ class Interp:
         return outs + abn
 
     def assign(self, lhs, val, st, node):
+        if lhs['k'] == 'Unary' and lhs.get('op') == 'Deref':
+            inner = hirq.peel_refs(lhs['e'])
+            if inner['k'] == 'Path' and inner.get('res') == 'local':
+                cur = st.env.get(inner['bind'])
+                if cur is not None and cur[0] == 'field':
+                    # `*r = v` where r was bound to a place (`let (a, b) = &mut *guard`): a store through the reference
+                    s = st.store(cur, val).event(('store', cur, val, node))
+                    return [Out('val', UNIT, s)]
         lhs = hirq.peel_refs(lhs)
         if lhs['k'] == 'Path' and lhs.get('res') == 'local':
             s = st.set(lhs['bind'], val).event(('assign-local', lhs['bind'], val, node))
@@ -1018,6 +1046,13 @@ class Interp:
                 cv = hirq.const_eval(self.facts, {'k': 'Path', 'res': 'def', 'defkind': pe.get('defkind'), 'def': pe.get('def')})
                 if cv is not None and v[0] == 'lit':
                     return [('yes' if v[1] == cv else 'no', st)]
+                if cv is not None:
+                    # a named constant in pattern position is the literal it evaluates to
+                    pv = lit(cv)
+                    kn = st.known(('bin', 'Eq', v, pv))
+                    if kn is not None:
+                        return [('yes' if kn else 'no', st)]
+                    return [('maybe', st.assume(('bin', 'Eq', v, pv), True))]
                 return [('maybe', st)]
             if v[0] == 'ctor':
                 return [('yes' if v[1] == var else 'no', st)]
@@ -1308,6 +1343,19 @@ def builtin_summary(I, cal, args, node, st):
                 else:
                     outs.extend(I.apply(args[1], [] if is_opt else [inner], node, s))
         return outs
+    if I.combinators and name in ('checked_add',) and cal.startswith('core::num::<impl ') and len(args) == 2 and args[1][0] == 'lit':
+        ity = cal[len('core::num::<impl '):].split('>')[0]
+        rng = INT_RANGE.get(ity)
+        if rng is not None and isinstance(args[1][1], int) and args[1][1] > 0:
+            x, c = args
+            if x[0] == 'lit':
+                r = x[1] + c[1]
+                return [Out('val', ('ctor', 'Some', (('lit', r),)) if r <= rng[1] else ('ctor', 'None', ()), st)]
+            if c[1] == 1:
+                outs = []
+                for truth, s2 in I.decide(('bin', 'Eq', x, ('lit', rng[1])), st):
+                    outs.append(Out('val', ('ctor', 'None', ()) if truth else ('ctor', 'Some', (bin_term('Add', x, c),)), s2))
+                return outs
     if I.result_combinators and is_res and name in ('map_err', 'ok', 'err') and args and (name != 'map_err' or (len(args) == 2 and args[1][0] in ('closure', 'fn'))):
         v = args[0]
         if v[0] == 'ctor' and v[1] in ('Ok', 'Err'):
